@@ -14,7 +14,6 @@
 //verif:stub host / peerstore / network / connection / emitter stubs logging every write; record.ConsumeEnvelope, Envelope.Record, crypto.UnmarshalPublicKey, peer.IDFromPublicKey hooked with symbolic outcomes (idealised crypto); filterAddrs hooked to the identity (address-class filtering outside); multiaddrs are atoms in the symbolic run
 //verif:assume the connection has a non-empty authenticated remote peer ID
 //verif:outside message chunking, identify-vs-disconnect races beyond the lock check, IdentifyWait release, address class filtering
-//verif:nowitness-not-needed
 package identify
 
 import (
